@@ -15,6 +15,8 @@ import OFV.Proofs.C04Iop2
 import OFV.Proofs.C04Dch
 import OFV.Proofs.C04Rev4
 import OFV.Proofs.C04JFinal
+import OFV.Proofs.C04RevInv
+import OFV.Proofs.C04JHam
 
 namespace OFV.C04
 open OFV OFV.Spec OFV.Model OFV.Model.C04 OFV.Sem
@@ -229,6 +231,29 @@ theorem reverse_jw_left_inverse (tol : Rat) (htol : tol * tol ≤ 1 / 4) (A : Mo
   rw [reverse_jw_sound tol htol _ (jwFermion_canon_valid tol htol A) hok2 m x]
   exact jw_exact tol htol A hA hok1 m x
 
+/-- `reverse_jordan_wigner` only emits creation and annihilation operators (every QubitOperator, no hypothesis) -/
+theorem reverse_jw_ladder (tol : Rat) (Q : Model.Op) : ∀ tc ∈ reverseJW tol Q, ∀ f ∈ tc.1, f.2 ≤ 1 :=
+  Jel.reverseJW_keys tol Q
+
+/-- **`jordan_wigner` inverts `reverse_jordan_wigner`**: for every QubitOperator `Q` (any number of canonical
+Pauli strings of `X`, `Y`, `Z` factors, any complex coefficients), `jordan_wigner(reverse_jordan_wigner(Q))` acts
+on every basis state exactly like `Q` — on every exact run of both transforms (flags evaluated by the driver). -/
+theorem reverse_jw_right_inverse (tol : Rat) (htol : tol * tol ≤ 1 / 4) (Q : Model.Op)
+    (hQ : ∀ tc ∈ Q, SortedQ tc.1 ∧ (∀ f ∈ tc.1, f.2 < 4)) (hok1 : reverseJWOk tol Q = true)
+    (hok2 : jwFermionOk tol (reverseJW tol Q) = true) (m x : Nat) :
+    GV.coeff (applyOp .qubit (jwFermion tol (reverseJW tol Q)) [m]) [x] = GV.coeff (applyOp .qubit Q [m]) [x] := by
+  rw [jw_exact tol htol _ (reverse_jw_ladder tol Q) hok2 m x]
+  exact reverse_jw_sound tol htol Q hQ hok1 m x
+
+/-- term level: a single Pauli string `c · σ_{q1} … σ_{qk}` (canonical, factors `X`/`Y`/`Z`) -/
+theorem reverse_jw_right_inverse_term (tol : Rat) (htol : tol * tol ≤ 1 / 4) (t : List (Nat × Nat)) (c : GQ)
+    (hS : SortedQ t) (hV : ∀ f ∈ t, f.2 < 4) (hok1 : reverseJWOk tol [(t, c)] = true)
+    (hok2 : jwFermionOk tol (reverseJW tol [(t, c)]) = true) (m x : Nat) :
+    GV.coeff (applyOp .qubit (jwFermion tol (reverseJW tol [(t, c)])) [m]) [x]
+      = GV.coeff (applyOp .qubit [(t, c)] [m]) [x] :=
+  reverse_jw_right_inverse tol htol [(t, c)]
+    (by intro tc h; simp only [List.mem_singleton] at h; subst h; exact ⟨hS, hV⟩) hok1 hok2 m x
+
 /-! ### dual-basis jellium: the direct Jordan-Wigner form over the exact index structure -/
 
 /-- **`Grid.orbital_id` / `Grid.grid_indices` / `all_points_indices`** (every dimension, all lengths): the grid
@@ -284,6 +309,19 @@ theorem jw_jellium_direct_sound (tol : Rat) (l : List Nat) (spinless : Bool) (ki
     (fun u v hu hv => hevenP u ((Jel.allPoints_mem l u).2 hu) v ((Jel.allPoints_mem l v).2 hv))
     hsum hokD hokM m x
 
+/-- the same with all hypotheses as decidable flags (what the driver evaluates on every exact-table instance) -/
+theorem jw_jellium_direct_sound_of_flags (tol : Rat) (l : List Nat) (spinless : Bool) (kin pot : List Nat → GQ)
+    (const : Option GQ) (hhyp : C04J.jelliumHypOk l kin pot = true)
+    (hokD : C04J.jwJelliumDirectOk tol l spinless kin pot const = true)
+    (hokM : C04J.dualBasisModelOk tol l spinless kin pot const = true) (m x : Nat) :
+    GV.coeff (applyOp .qubit (C04J.jwJelliumDirect tol l spinless kin pot const) [m]) [x]
+      = GV.coeff (applyOp .fermion (C04J.dualBasisModel tol l spinless kin pot const) [m]) [x] := by
+  unfold C04J.jelliumHypOk at hhyp
+  simp only [Bool.and_eq_true, List.all_eq_true, beq_iff_eq] at hhyp
+  obtain ⟨he, hs⟩ := hhyp
+  exact jw_jellium_direct_sound tol l spinless kin pot const
+    (fun u hu v hv => (he u hu v hv).1) (fun u hu v hv => (he u hu v hv).2) hs hokD hokM m x
+
 /-- … hence it **equals `jordan_wigner` of the dual-basis FermionOperator** built from the same coefficient
 functions (as operators on every basis state), all three runs exact -/
 theorem jw_jellium_direct_eq_jordan_wigner (tol : Rat) (htol : tol * tol ≤ 1 / 4) (l : List Nat) (spinless : Bool)
@@ -298,6 +336,28 @@ theorem jw_jellium_direct_eq_jordan_wigner (tol : Rat) (htol : tol * tol ≤ 1 /
       = GV.coeff (applyOp .qubit (jwFermion tol (C04J.dualBasisModel tol l spinless kin pot const)) [m]) [x] := by
   rw [jw_jellium_direct_sound tol l spinless kin pot const hevenK hevenP hsum hokD hokM m x]
   exact (jw_exact tol htol _ (Jel.model_ladder tol l spinless kin pot const) hokJ m x).symm
+
+/-- **`jordan_wigner_dual_basis_hamiltonian` is sound**: the jellium direct form plus, for every non-zero momentum
+`k`, qubit `p` and nucleus `j`, the pair `QubitOperator((), c) - QubitOperator(Z_p, c)` with
+`c = ext k (site p) j = (-2π/Ω)/k² Z_j cos(k·(R_j − r_p))` has the matrix elements of
+`plane_wave_hamiltonian(plane_wave=False)` = `dual_basis_jellium_model + dual_basis_external_potential`
+(`Σ_{x,j,k,σ} 2 ext k x j · n_{x,σ}`, built as "first term assigned, the others `+=`") — every grid (all dimensions and
+lengths), spinless or with spin, any number of nuclei, the coefficient table `ext` and the zero-momentum test
+abstract; hypotheses on `K`, `P` as in `jw_jellium_direct_sound` (one decidable flag), both runs exact. -/
+theorem jw_dual_basis_hamiltonian_sound (tol : Rat) (l : List Nat) (spinless : Bool) (kin pot : List Nat → GQ)
+    (nNuc : Nat) (skipK : List Nat → Bool) (ext : List Nat → List Nat → Nat → GQ)
+    (hhyp : C04J.jelliumHypOk l kin pot = true)
+    (hokD : C04J.jwDualBasisHamOk tol l spinless kin pot nNuc skipK ext = true)
+    (hokM : C04J.dualBasisHamModelOk tol l spinless kin pot nNuc skipK ext = true) (m x : Nat) :
+    GV.coeff (applyOp .qubit (C04J.jwDualBasisHam tol l spinless kin pot nNuc skipK ext) [m]) [x]
+      = GV.coeff (applyOp .fermion (C04J.dualBasisHamModel tol l spinless kin pot nNuc skipK ext) [m]) [x] := by
+  unfold C04J.jelliumHypOk at hhyp
+  simp only [Bool.and_eq_true, List.all_eq_true, beq_iff_eq] at hhyp
+  obtain ⟨he, hs⟩ := hhyp
+  exact Jel.dualBasisHam_sound tol l spinless kin pot nNuc skipK ext
+    (fun u v hu hv => (he u ((Jel.allPoints_mem l u).2 hu) v ((Jel.allPoints_mem l v).2 hv)).1)
+    (fun u v hu hv => (he u ((Jel.allPoints_mem l u).2 hu) v ((Jel.allPoints_mem l v).2 hv)).2)
+    hs hokD hokM m x
 
 /-! ### non-vacuity -/
 
@@ -398,7 +458,7 @@ example : jwDCHOk Generated.eqTolerance 3 ⟨mkRat 3 4, 0⟩
 * the dual-basis jellium helpers: the index structure and the operator identity ARE theorems
   (`jw_jellium_direct_sound`, momentum sums abstract); that the floating-point momentum sums of the library are
   even and satisfy `Σ_δ P(δ) = 0` up to rounding is checked numerically by the harness only;
-  `jordan_wigner_dual_basis_hamiltonian` (external potential of nuclei) has no Model. -/
+  `jordan_wigner_dual_basis_hamiltonian` likewise (`jw_dual_basis_hamiltonian_sound`, table `ext` abstract). -/
 
 /-- all hypotheses of `jw_jellium_direct_sound` on a concrete 2-D grid with unequal lengths `3 × 2`, spinless
 (6 qubits; the spinful case is exercised by the harness) and with a constant: tables of `K` and `P` that are even and with `Σ P = 0` -/
@@ -412,6 +472,31 @@ example :
     ∧ C04J.jwJelliumDirectOk Generated.eqTolerance l true kin pot (some ⟨mkRat 7 4, 0⟩) = true
     ∧ C04J.dualBasisModelOk Generated.eqTolerance l true kin pot (some ⟨mkRat 7 4, 0⟩) = true := by
   refine ⟨by decide +kernel, by decide +kernel, by decide +kernel, by decide +kernel, by decide +kernel⟩
+
+/-- all hypotheses of `jw_dual_basis_hamiltonian_sound` on a concrete instance: 1-D grid of 3 points with spin
+(6 qubits), two nuclei, momentum index 1 is the zero momentum -/
+example :
+    let l := [3]
+    let kin := C04J.tableFn l [⟨2, 0⟩, ⟨-1, 0⟩, ⟨-1, 0⟩]
+    let pot := C04J.tableFn l [⟨1, 0⟩, ⟨-(mkRat 1 2), 0⟩, ⟨-(mkRat 1 2), 0⟩]
+    let skipK : List Nat → Bool := fun k => k == [1]
+    let ext : List Nat → List Nat → Nat → GQ := fun k x j =>
+      if (k.headD 0 + x.headD 0 + j) % 3 == 0 then ⟨-(j + 1 : Nat), 0⟩ else ⟨mkRat (j + 1) 2, 0⟩
+    C04J.jelliumHypOk l kin pot = true
+    ∧ C04J.jwDualBasisHamOk Generated.eqTolerance l false kin pot 2 skipK ext = true
+    ∧ C04J.dualBasisHamModelOk Generated.eqTolerance l false kin pot 2 skipK ext = true := by
+  refine ⟨by decide +kernel, by decide +kernel, by decide +kernel⟩
+
+/-- hypotheses of `reverse_jw_right_inverse` on a concrete QubitOperator with `X`, `Y`, `Z` strings and complex
+coefficients (kernel-evaluated) -/
+example :
+    let Q : Model.Op := [([(0, 1), (1, 3), (3, 2)], ⟨mkRat 1 2, -1⟩), ([(2, 3)], ⟨0, 2⟩), ([(1, 2), (2, 1)], ⟨-3, 0⟩)]
+    (∀ tc ∈ Q, SortedQ tc.1 ∧ (∀ f ∈ tc.1, f.2 < 4))
+      ∧ reverseJWOk Generated.eqTolerance Q = true
+      ∧ jwFermionOk Generated.eqTolerance (reverseJW Generated.eqTolerance Q) = true := by
+  refine ⟨?_, by decide +kernel, by decide +kernel⟩
+  unfold SortedQ
+  decide +kernel
 
 /-- exact-regime hypotheses of `reverse_jw_left_inverse` on a concrete operator (kernel-evaluated) -/
 example :
